@@ -56,6 +56,15 @@ let build cfg (k : famkind) (ap : bool) (mode : String.t) (ops : String.t) : Str
                     incr count;
                     b := if kd = "AI" then add_announcement !b n else add_withdrawal !b n
                   | _ -> raise Prep) (split_on ',' hs)
+          | ["LL"; h] ->
+            (* set_nexthop_ll_addr: the global part stays, the link-local part is replaced (or added to a plain IPv6 next hop) *)
+            let addr = bytes_of_hex h in
+            (match !b.bd_ann with
+             | Some r -> (match r.r_nh with
+                 | NhUni a when List.length a = 16 -> b := set_nexthop !b (NhLL (a, addr))
+                 | NhLL (a, _) -> b := set_nexthop !b (NhLL (a, addr))
+                 | _ -> raise Prep)
+             | None -> b := set_nexthop !b (NhLL (List.init 16 (fun _ -> n_of_int 0), addr)))
           | ["N"; kind; h] ->
             (match nexthop kind h with
              | Some nh -> b := set_nexthop !b nh
@@ -112,7 +121,25 @@ let rebuild cfg (k : famkind) (ap : bool) (bs : n list) : String.t =
               (match into_message cfg b with Ok m -> mres_s m | Err -> "E" | Panic -> "PANIC")
             | _ -> "PANIC")
          | _ -> "PANIC") in
-    Printf.sprintf "direct=%s pamap=%s builder=%s" direct pamap builder
+    let builder2 =
+      if List.exists (fun r -> r = Err) items then "err:seed:InvalidAttribute" else
+      match from_update_message bs u k with
+      | Panic -> "PANIC" | Err -> "err:seed:Parse"
+      | Ok b ->
+        (match add_withdrawals_from_pdu bs u ap b with
+         | Ok b ->
+           (match add_announcements_from_pdu bs u ap b with
+            | Ok b ->
+              (match add_withdrawals_from_pdu bs u ap b with
+               | Ok b ->
+                 let b = match a_mp_next_hop bs u, a_announcements bs u with
+                   | Ok (Some (_, nh)), Ok (_ :: _) -> set_nexthop b nh
+                   | _ -> b in
+                 (match into_message cfg b with Ok m -> mres_s m | Err -> "E" | Panic -> "PANIC")
+               | _ -> "PANIC")
+            | _ -> "PANIC")
+         | _ -> "PANIC") in
+    Printf.sprintf "direct=%s pamap=%s builder=%s builder2=%s" direct pamap builder builder2
 
 let run (args : String.t list) =
   match args with
